@@ -7,9 +7,16 @@
 package main
 
 import (
+	"context"
+	"errors"
 	"fmt"
+	"github.com/transparency-dev/witness/internal/persistence"
+	"github.com/transparency-dev/witness/internal/witness"
 	"math/rand/v2"
 	"sort"
+	"sync"
+	"sync/atomic"
+	"time"
 
 	"github.com/transparency-dev/witness/internal/verif/kit/ev"
 	"github.com/transparency-dev/witness/internal/verif/kit/gen"
@@ -127,6 +134,127 @@ func main() {
 			}
 		}
 	})
+	run.Floor("concurrent_requests", 2000)
+	run.Units("concurrent", run.Pick(120, 1200), 0, func(unit int64, r *rand.Rand) { concurrent(run, unit, r, rec, dir) })
+}
+
+// concurrent: 6-16 goroutines send mixed requests for 1-3 logs at once, some under a context that is
+// already cancelled or expires while the request runs. Whatever the interleaving, the totals are decided
+// by what each request named and by what it got back: attempts = requests that named the (known) log,
+// successes = nil errors, invalid-consistency = ErrInvalidProof answers, inconsistent = ErrRootMismatch answers.
+func concurrent(run *ev.Run, unit int64, r *rand.Rand, rec *seams.RecMetrics, dir string) {
+	u := gen.NewUniverse(r, gen.Opts{NLogs: 1 + r.IntN(3), MaxSize: 60, Branches: 2, Unique: true})
+	st, err := wit.NewStore(wit.DrawStore(r), dir)
+	if err != nil {
+		run.Inconclusive(err.Error())
+		return
+	}
+	defer st.Close()
+	keys, _ := wit.NewWitKeys(r, []bool{false, true}, true)
+	// a slow store, so that many requests are in flight together
+	rn, err := wit.NewRunner(u, keys, st, func(p persistence.LogStatePersistence) persistence.LogStatePersistence {
+		h := seams.NewHookStore(p)
+		var n atomic.Uint64
+		h.SetHook(func(op, id string) error {
+			if op == seams.OpWriteOps || op == seams.OpWSet {
+				time.Sleep(time.Duration(200+(n.Add(1)*7919)%800) * time.Microsecond)
+			}
+			return nil
+		})
+		return h
+	})
+	if err != nil {
+		run.Inconclusive(err.Error())
+		return
+	}
+	base := map[*gen.Log]uint64{}
+	var labels []string
+	for _, l := range u.Logs {
+		labels = append(labels, l.ID)
+		base[l] = 1 + r.Uint64N(8)
+		if _, err := rn.W.Update(context.Background(), l.ID, 0, l.Honest(0, base[l]), nil); err != nil {
+			run.Inconclusive("first update refused: " + err.Error())
+			return
+		}
+	}
+	before := rec.ForLabels(labels)
+	type outcome struct {
+		id  string
+		err error
+	}
+	G := 6 + r.IntN(11)
+	per := 3
+	outs := make([]outcome, G*per)
+	var wg sync.WaitGroup
+	start := make(chan struct{})
+	for g := 0; g < G; g++ {
+		g := g
+		gr := rand.New(rand.NewPCG(r.Uint64(), uint64(g)))
+		wg.Add(1)
+		go func() {
+			defer wg.Done()
+			<-start
+			for k := 0; k < per; k++ {
+				l := u.Logs[gr.IntN(len(u.Logs))]
+				b := base[l]
+				var cp []byte
+				var proof [][]byte
+				old := b
+				switch gr.IntN(5) {
+				case 0, 1: // honest growth from the size every goroutine knows (at most one of them wins)
+					nx := b + 1 + gr.Uint64N(5)
+					cp, proof = l.Honest(0, nx), l.Branches[0].Consistency(b, nx)
+				case 2: // genuine checkpoint, junk proof
+					nx := b + 1 + gr.Uint64N(5)
+					h := make([]byte, 32)
+					h[0] = byte(g)
+					cp, proof = l.Honest(0, nx), [][]byte{h}
+				case 3: // same size, other root
+					cp = l.Honest(1, b)
+				case 4: // stale old size
+					old = b - 1
+					cp, proof = l.Honest(0, b+2), l.Branches[0].Consistency(b-1, b+2)
+				}
+				ctx, cancel := context.Background(), context.CancelFunc(func() {})
+				switch gr.IntN(4) {
+				case 0:
+					ctx, cancel = context.WithCancel(context.Background())
+					cancel() // the caller has already given up
+				case 1:
+					ctx, cancel = context.WithTimeout(context.Background(), time.Duration(gr.IntN(1500))*time.Microsecond)
+				}
+				_, err := rn.W.Update(ctx, l.ID, old, cp, proof)
+				cancel()
+				outs[g*per+k] = outcome{l.ID, err}
+			}
+		}()
+	}
+	close(start)
+	wg.Wait()
+	after := rec.ForLabels(labels)
+	d := seams.Delta(before, after)
+	want := map[string]int64{}
+	for _, o := range outs {
+		want[cAttempt+"|"+o.id]++
+		switch {
+		case o.err == nil:
+			want[cSuccess+"|"+o.id]++
+		case errors.Is(o.err, witness.ErrInvalidProof):
+			want[cInvalid+"|"+o.id]++
+		case errors.Is(o.err, witness.ErrRootMismatch):
+			want[cInconsistent+"|"+o.id]++
+		}
+	}
+	run.Add("evaluations", int64(len(outs)))
+	run.Add("concurrent_requests", int64(len(outs)))
+	run.Distinct("nontrivial", fmt.Sprintf("concurrent/goroutines=%d/logs=%d/%s", G/4*4, len(u.Logs), st.Kind))
+	if !same(d, want) {
+		errs := map[string]int{}
+		for _, o := range outs {
+			errs[fmt.Sprint(o.err)]++
+		}
+		run.Violate("counter_total;concurrent", fmt.Sprintf("%d requests in %d goroutines: counters moved by %v, the requests and their answers give %v", len(outs), G, d, want), unit, map[string]any{"delta": d, "want": want, "answers": errs, "store": st.Kind})
+	}
 }
 
 func same(a, b map[string]int64) bool {
